@@ -119,6 +119,13 @@ func NewJoin(query *Query, left, right []any, leftIdent, rightIdent string, into
 	join.joinExpr = joinExpr
 	join.joinType = joinType
 	join.serial = joinType.IsParallel() && touchesQueryState(joinExpr)
+	// a CTE of the scope that has not been read yet is evaluated by whoever
+	// names it first, also by a bare column over dual
+	for _, value := range query.data {
+		if _, pending := value.(CteEvaluation); pending && joinType.IsParallel() {
+			join.serial = true
+		}
+	}
 	return join
 }
 
@@ -128,7 +135,7 @@ func touchesQueryState(expr sqlparser.Expr) bool {
 	touches := false
 	_ = sqlparser.Walk(func(node sqlparser.SQLNode) (bool, error) {
 		switch node := node.(type) {
-		case *sqlparser.FuncExpr, *sqlparser.Subquery, *sqlparser.ExistsExpr:
+		case *sqlparser.FuncExpr, *sqlparser.Subquery, *sqlparser.ExistsExpr, sqlparser.AggrFunc:
 			touches = true
 		case *sqlparser.ColName:
 			if strings.Contains(sqlparser.String(node), "<-") {
